@@ -664,6 +664,90 @@ fn gen_history(rng: &mut SplitMix, focus: &str) -> History {
     }
 }
 
+
+/// C10 boundary sweep: deterministic grid over representation (inline 1..2, heap 3..12), seeder/leecher,
+/// position of the watched peer, max age, announce time, optional re-announce at an offset, then cleaning
+/// passes exactly one second before, at, and after the deadline (presence read back by scrape + observer).
+fn gen_sweep(index: u64) -> Option<History> {
+    let ages: [u32; 8] = [0, 1, 2, 3, 1800, u32::MAX / 2, u32::MAX - 1, u32::MAX];
+    let t0s: [u32; 4] = [0, 1, 1000, u32::MAX - 3];
+    let sizes: [usize; 8] = [1, 2, 3, 4, 5, 6, 9, 12];
+    let positions = 3usize; // first, middle, last
+    let re_opts = 5usize; // none, +0, +1, age-1, age
+    let mut i = index;
+    let age = ages[(i % 8) as usize];
+    i /= 8;
+    let t0 = t0s[(i % 4) as usize];
+    i /= 4;
+    let size = sizes[(i % 8) as usize];
+    i /= 8;
+    let pos = (i % positions as u64) as usize;
+    i /= positions as u64;
+    let seeder = i % 2 == 0;
+    i /= 2;
+    let re = (i % re_opts as u64) as usize;
+    i /= re_opts as u64;
+    let v6 = i % 2 == 1;
+    i /= 2;
+    if i > 0 {
+        return None;
+    }
+    // keep all instants below u32::MAX (the engines' clock convention)
+    let target = match pos {
+        0 => 0,
+        1 => size / 2,
+        _ => size - 1,
+    };
+    let sources: Vec<String> = (0..size).map(|m| if v6 { format!("fd00::{:x}", m + 1) } else { format!("10.0.0.{}", m + 1) }).collect();
+    let mut ops = Vec::new();
+    for m in 0..size {
+        ops.push(Op::Announce { t: 0, src: m, port: 1000 + m as u16, event: 2, left: if (m == target) == seeder { 0 } else { 1 }, numwant: 50, pid: 0, ip_field: 0, lag: 0 });
+    }
+    let mut issue = t0 as u64;
+    let mut clock = t0 as u64;
+    let re_off: Option<u64> = match re {
+        0 => None,
+        1 => Some(0),
+        2 => Some(1),
+        3 => Some((age as u64).saturating_sub(1)),
+        _ => Some(age as u64),
+    };
+    if let Some(off) = re_off {
+        if clock + off < u32::MAX as u64 - 2 {
+            ops.push(Op::Clean { advance: off as u32, export: false });
+            clock += off;
+            // the re-announce sets a fresh deadline (if the entry expired at this very pass it simply comes back)
+            ops.push(Op::Announce { t: 0, src: target, port: 1000 + target as u16, event: 0, left: if seeder { 0 } else { 1 }, numwant: 50, pid: 0, ip_field: 0, lag: 0 });
+            issue = clock;
+        }
+    }
+    let deadline = issue + age as u64;
+    // cleans at deadline-1, deadline, deadline+1 where those instants exist on the clock
+    let mut last = clock;
+    for instant in [deadline.saturating_sub(1), deadline, deadline + 1] {
+        if instant < last || instant > u32::MAX as u64 - 1 {
+            continue;
+        }
+        ops.push(Op::Clean { advance: (instant - last) as u32, export: false });
+        last = instant;
+        ops.push(Op::Observe { t: 0, v6 });
+        ops.push(Op::Scrape { v6, ts: vec![0] });
+    }
+    Some(History {
+        max_response_peers: 30,
+        max_peer_age: age,
+        start_clock: t0,
+        mode: 0,
+        initial_list: vec![],
+        histograms: false,
+        torrents: vec![vcore::hex(&[0x77u8; 20])],
+        sources,
+        peer_ids: vec![vcore::hex(&[1u8; 20])],
+        rng_seed: index,
+        ops,
+    })
+}
+
 fn relevant(property: &str, clause: &str) -> bool {
     match property {
         "C01" => matches!(clause, "counts" | "handout" | "family" | "reply_kind" | "scrape" | "panic" | "peerlist" | "stats_torrents"),
@@ -706,6 +790,36 @@ fn main() {
         report.finish(&args.out());
     }
 
+    if args.get("mode") == Some("sweep") {
+        let mut idx = 0u64;
+        let mut ops = 0u64;
+        while let Some(h) = gen_sweep(idx) {
+            let mut shape = Shape::default();
+            match run_history(&h, &export_dir, &mut shape) {
+                Ok(n) => ops += n,
+                Err(f) => {
+                    if relevant(&property, f.clause) {
+                        let mut hh = h.clone();
+                        hh.ops.truncate(f.op_index + 1);
+                        report.violation(&f.signature, f.clause, format!("boundary sweep case {}: {}", idx, f.detail), json!({"engine":"udp_swarm","history": hh, "failing_op": f.op_index, "sweep_index": idx}));
+                    }
+                }
+            }
+            if shape.counters.contains_key("clean_expired_some") {
+                report.nontrivial(vcore::fnv(&idx.to_le_bytes()));
+            }
+            if idx == 4321 {
+                report.sample(serde_json::to_value(&h).unwrap());
+            }
+            idx += 1;
+        }
+        report.evals(ops);
+        report.add("sweep_cases", idx);
+        report.extra.insert("exhaustive".into(), json!(true));
+        report.rule = "deterministic boundary grid: 8 max ages x 4 announce times x 8 swarm sizes (inline and heap) x 3 positions x seeder/leecher x 5 re-announce offsets x 2 families, cleans at deadline-1 / deadline / deadline+1 with scrape + observer read-out vs reference model; non-trivial = case in which the watched pass expired something; distinct = grid index".into();
+        let _ = std::fs::remove_dir_all(&export_dir);
+        report.finish(&args.out());
+    }
     let seed = args.seed();
     let shard = args.u64("shard", 0);
     let histories = args.u64("histories", if args.thorough() { 400_000 } else { 20_000 });
